@@ -15,6 +15,7 @@
 import TdVerif.Lemmas.C15Dispatch
 import TdVerif.Lemmas.C15Wrap
 import TdVerif.Lemmas.C15Fields
+import TdVerif.Lemmas.C15Update
 
 namespace TdVerif.Props.C15
 open TdVerif.C15 TdVerif.Gen.Tc
@@ -647,6 +648,73 @@ theorem setitem_rejects_foreign (tdSetAt : TD → Option TD → Except Err TD) (
   cases k <;> simp [setitemTc, hc, hs]
 
 end items
+
+/-! ### writes that reach `_tensordict` without `_set`: delegated in-place methods and `update` -/
+section behindSet
+variable {T V : Type}
+
+/-- `attr_is_key` after a DELEGATED write: whatever an in-place tensordict method does to `_tensordict` (it may only add
+or overwrite entries under declared fields: `setdefault`, `rename_key_`, `create_nested`, `cat_tensors(out_key=…)`,
+`make_memmap`, …), the wrapper's pruning leaves every declared field in exactly one of the two dicts. -/
+theorem delegated_write_preserves_wf (fields : List String) (tc : TC (TDm T V) V) (td' : TDm T V) (hwf : WF fields tc)
+    (hpl : PlaceholdersOnly tc) (hsub : ∀ k ∈ td'.keys, k ∈ fields) (hgrow : ∀ k ∈ tc.td.keys, k ∈ td'.keys) :
+    WF fields (delegatedWrite tc td') :=
+  delegatedWrite_wf fields tc td' hwf hpl hsub hgrow
+
+/-- … and therefore every export of the SAME object shows what the attribute read shows: `to_tensordict()[f]`
+(`toTensordict`, which reads the placeholders) equals `tc.f` for every name. -/
+theorem delegated_write_exports_agree (fields : List String) (tc : TC (TDm T V) V) (td' : TDm T V) (hwf : WF fields tc)
+    (hpl : PlaceholdersOnly tc) (hsub : ∀ k ∈ td'.keys, k ∈ fields) (hgrow : ∀ k ∈ tc.td.keys, k ∈ td'.keys) (f : String) :
+    tdGetItem (toTensordict (delegatedWrite tc td')) f = getField (delegatedWrite tc td') f :=
+  (getattr_is_getitem fields _ (delegatedWrite_wf fields tc td' hwf hpl hsub hgrow) f).symm
+
+/-- the pruning is invisible to attribute reads (the repaired `_getattr` already lets the entry win): the repaired and
+the pinned wrapper differ only in what the exports show -/
+theorem delegated_write_reads_unchanged (tc : TC (TDm T V) V) (td' : TDm T V) (hnd : tc.nt.keys.Nodup) (f : String) :
+    getField (delegatedWrite tc td') f = getField (delegatedWritePinned tc td') f :=
+  getField_dropStale (delegatedWritePinned tc td') hnd f
+
+/-- the PINNED wrapper violates the property (finding repaired by commit "a None placeholder survived …"):
+`tc.setdefault("o", t)` on an instance whose field `o` is `None` — the attribute reads the tensor, the export still
+shows `None`; the repaired wrapper shows the tensor. -/
+theorem delegated_write_stale_placeholder_pinned_counterexample :
+    let tc : TC (TDm Nat Nat) Nat := ⟨"A", ⟨[("x", .leaf 1)], false⟩, [("o", none)]⟩
+    let td' : TDm Nat Nat := ⟨[("x", .leaf 1), ("o", .leaf 5)], false⟩
+    getField (delegatedWritePinned tc td') "o" = .ok (.tensor 5)
+    ∧ tdGetItem (toTensordict (delegatedWritePinned tc td')) "o" = .ok (.obj none)
+    ∧ tdGetItem (toTensordict (delegatedWrite tc td')) "o" = .ok (.tensor 5) := by
+  simp [delegatedWritePinned, delegatedWrite, dropStale, getField, tdGetItem, toTensordict, List.lookup, unwrapEntry,
+    assocSet, TDm.keys]
+
+/-- `tc.update(src)` with a tensorclass (or dict) source of the same class keeps the destination well formed, whether
+the source's `None` placeholders are filtered before the merge (`b = true`, the code) or not (`b = false`, the seeded
+mutant C15-2, which the pruning neutralises). -/
+theorem update_preserves_wf (b : Bool) (fields : List String) (dst src : TC (TDm T V) V) (hd : WF fields dst)
+    (hs : WF fields src) (hpd : PlaceholdersOnly dst) (hps : PlaceholdersOnly src) : WF fields (updateTc b dst src) :=
+  updateTc_wf b fields dst src hd hs hpd hps
+
+/-- … so after `update` every export agrees with the attribute read, on the same object -/
+theorem update_exports_agree (b : Bool) (fields : List String) (dst src : TC (TDm T V) V) (hd : WF fields dst)
+    (hs : WF fields src) (hpd : PlaceholdersOnly dst) (hps : PlaceholdersOnly src) (f : String) :
+    tdGetItem (toTensordict (updateTc b dst src)) f = getField (updateTc b dst src) f :=
+  (getattr_is_getitem fields _ (updateTc_wf b fields dst src hd hs hpd hps) f).symm
+
+/-- the PINNED `_update` (no pruning) violates the property in both variants: with the code's filter when the source
+sets a field the destination holds as `None` (the finding), and without the filter when the source leaves a field at
+`None` that the destination has set (the seeded mutant on the unrepaired tree). -/
+theorem update_stale_placeholder_pinned_counterexamples :
+    let unset : TC (TDm Nat Nat) Nat := ⟨"A", ⟨[("x", .leaf 1)], false⟩, [("o", none)]⟩
+    let set : TC (TDm Nat Nat) Nat := ⟨"A", ⟨[("x", .leaf 2), ("o", .leaf 5)], false⟩, []⟩
+    (getField (updateTcPinned true unset set) "o" = .ok (.tensor 5)
+      ∧ tdGetItem (toTensordict (updateTcPinned true unset set)) "o" = .ok (.obj none))
+    ∧ (getField (updateTcPinned false set unset) "o" = .ok (.tensor 5)
+      ∧ tdGetItem (toTensordict (updateTcPinned false set unset)) "o" = .ok (.obj none))
+    ∧ tdGetItem (toTensordict (updateTc true unset set)) "o" = .ok (.tensor 5)
+    ∧ tdGetItem (toTensordict (updateTc false set unset)) "o" = .ok (.tensor 5) := by
+  simp [updateTcPinned, updateTc, tdUpdate, dropStale, getField, tdGetItem, toTensordict, List.lookup, unwrapEntry,
+    assocSet, TDm.keys]
+
+end behindSet
 
 -- non-vacuity: concrete, non-trivial values satisfying the hypotheses used above
 example : Matching ["x", "s", "o"] ["x", "s"] ([("o", none)] : NT Nat) := by
